@@ -8,7 +8,7 @@ structure DFin (s : Nat) (st : Stream) (cl : Client) : Prop where
     st.sto.disturbed = true ∨ 2 ≤ stage cl.pc s ∨ st.sto.ncommit = st.src.iframe
 
 def DFinP (s : Nat) (st : Stream) (cl : Client) : Prop :=
-  st.cam.emptyEvery = 0 → cl.misused = false → 0 < st.F → DFin s st cl
+  Here st → cl.misused = false → 0 < st.F → DFin s st cl
 
 theorem DFin.src (s : Nat) (cl : Client) (rs : DevState) : ∀ a ∈ srcActs s, ∀ st, a.guard st = true → TInv s st cl rs → DId s st cl → DFin s st cl → DFin s (a.upd st) cl := by
   intro a ha st hg ht hi h
